@@ -1,5 +1,493 @@
+// search-trace : runs the real search on listed cases and records result, TT writes and abort
+//                returns (through the cfg(rce_verif) observers) for spec/SearchTrace.tla.
+// tree-dump    : dumps the un-pruned look-ahead tree of a case using the Board API only
+//                (never search code), for evaluation of LookVal by TLC.
+// mate-facts   : per root move, the mate-level facts of a position (Board API only).
+// determinism  : repeated fixed-depth searches from a fresh cache.
+
+use std::io::{BufRead, Write};
+use std::sync::atomic::Ordering;
+
+use crate::board::piece::Color;
+use crate::board::transposition_table::TRANSPOSITION_TABLE;
+use crate::board::{Board, BoardBuilder, Ply};
+use crate::evaluate::simple_evaluator::SimpleEvaluator;
+use crate::evaluate::Evaluator;
+use crate::h_proj::*;
+use crate::search::limits::SearchLimits;
+use crate::search::Search;
 use crate::Args;
-pub fn cmd_search_trace(_a: &Args) { unimplemented!() }
-pub fn cmd_tree_dump(_a: &Args) { unimplemented!() }
-pub fn cmd_mate_facts(_a: &Args) { unimplemented!() }
-pub fn cmd_determinism(_a: &Args) { unimplemented!() }
+
+fn clear_tt() {
+    TRANSPOSITION_TABLE.write().unwrap().clear();
+}
+
+pub fn build_board(fen: &str, hist: &[String]) -> Option<Board> {
+    let mut board = if fen == "startpos" {
+        BoardBuilder::construct_starting_board().build()
+    } else {
+        Board::from_fen(fen)
+    };
+    for m in hist {
+        let p = board.find_move(m).ok()?;
+        board.make_move(p);
+    }
+    Some(board)
+}
+
+fn read_cases(path: &str) -> Vec<serde_json::Value> {
+    let f = std::fs::File::open(path).expect("cases file");
+    std::io::BufReader::new(f)
+        .lines()
+        .map_while(Result::ok)
+        .filter(|l| !l.trim().is_empty())
+        .map(|l| serde_json::from_str(&l).expect("case json"))
+        .collect()
+}
+
+fn hist_of(v: &serde_json::Value) -> Vec<String> {
+    v["hist"]
+        .as_array()
+        .map(|a| a.iter().map(|x| x.as_str().unwrap().to_string()).collect())
+        .unwrap_or_default()
+}
+
+/// Silence the engine's own stdout chatter (info / bestmove lines) while a search runs in-process.
+struct Quiet {
+    saved: i32,
+}
+extern "C" {
+    fn dup(fd: i32) -> i32;
+    fn dup2(a: i32, b: i32) -> i32;
+    fn close(fd: i32) -> i32;
+    fn open(path: *const u8, flags: i32) -> i32;
+}
+impl Quiet {
+    fn new() -> Self {
+        std::io::stdout().flush().ok();
+        unsafe {
+            let saved = dup(1);
+            let null = open(b"/dev/null\0".as_ptr(), 1);
+            dup2(null, 1);
+            close(null);
+            Self { saved }
+        }
+    }
+}
+impl Drop for Quiet {
+    fn drop(&mut self) {
+        std::io::stdout().flush().ok();
+        unsafe {
+            dup2(self.saved, 1);
+            close(self.saved);
+        }
+    }
+}
+
+pub struct Outcome {
+    pub best: Option<Ply>,
+    pub score: Option<i16>,
+    pub nodes: u64,
+    pub events: Vec<String>,
+    pub panicked: bool,
+}
+
+/// One search of `board` to `depth` with the given limits. `cache`: "off" (table emptied before
+/// every probe), "fresh" (emptied before the search), "keep" (left as it is).
+pub fn run_search(
+    board: &Board,
+    depth: u8,
+    nodes: Option<u64>,
+    movetime: Option<u128>,
+    stop_after_us: Option<u64>,
+    cache: &str,
+    record: bool,
+) -> Outcome {
+    crate::verif::CACHE_OFF.store(cache == "off", Ordering::Relaxed);
+    if cache != "keep" {
+        clear_tt();
+    }
+    let limits = SearchLimits::new().nodes(nodes).movetime(movetime);
+    let mut search = Search::new(board, Some(limits));
+    let flag = search.running.clone();
+    if record {
+        crate::verif::record_start();
+    }
+    let stopper = stop_after_us.map(|us| {
+        std::thread::spawn(move || {
+            std::thread::sleep(std::time::Duration::from_micros(us));
+            flag.store(false, Ordering::Relaxed);
+        })
+    });
+    let r = {
+        let _q = Quiet::new();
+        std::panic::catch_unwind(std::panic::AssertUnwindSafe(|| {
+            search.search(&SimpleEvaluator, Some(depth));
+        }))
+    };
+    if let Some(h) = stopper {
+        let _ = h.join();
+    }
+    let events = if record { crate::verif::record_take() } else { Vec::new() };
+    crate::verif::CACHE_OFF.store(false, Ordering::Relaxed);
+    let (best, score, n) = search.verif_result();
+    Outcome { best, score, nodes: n, events, panicked: r.is_err() }
+}
+
+fn opt<T: std::fmt::Display>(o: Option<T>) -> String {
+    o.map_or("99999".to_string(), |x| x.to_string())
+}
+
+pub fn cmd_search_trace(args: &Args) {
+    let cases = read_cases(&args.str("cases", "work/search/cases.ndjson"));
+    let out = args.str("out", "work/search/trace.ndjson");
+    crate::board::zkey::ZTable::init();
+    std::panic::set_hook(Box::new(|_| {}));
+    let mut w = std::io::BufWriter::new(std::fs::File::create(&out).unwrap());
+    for (i, c) in cases.iter().enumerate() {
+        let fen = c["fen"].as_str().unwrap();
+        let hist = hist_of(c);
+        let depth = c["depth"].as_u64().unwrap_or(1) as u8;
+        let nodes = c["budget"].as_u64();
+        let movetime = c["movetime"].as_u64().map(u128::from);
+        let stop_us = c["stop_us"].as_u64();
+        let cache = c["cache"].as_str().unwrap_or("fresh");
+        let id = c["id"].as_u64().unwrap_or(i as u64);
+        let Some(board) = build_board(fen, &hist) else {
+            writeln!(w, "{{\"ev\":\"badcase\",\"id\":{id}}}").unwrap();
+            continue;
+        };
+        let o = run_search(&board, depth, nodes, movetime, stop_us, cache, true);
+        let hist_json: Vec<String> = hist.iter().map(|m| format!("\"{m}\"")).collect();
+        writeln!(
+            w,
+            "{{\"ev\":\"search\",\"id\":{id},\"group\":{},\"fen\":\"{fen}\",\"hist\":[{}],\"depth\":{depth},\"budget\":{},\"movetime\":{},\"stop_us\":{},\"cache\":\"{cache}\",\"best\":{},\"score\":{},\"nodes\":{},\"panicked\":{},\"nev\":{}}}",
+            c["group"].as_u64().unwrap_or(id),
+            hist_json.join(","),
+            nodes.map_or(-1i64, |n| n as i64),
+            movetime.map_or(-1i64, |n| n as i64),
+            stop_us.map_or(-1i64, |n| n as i64),
+            o.best.map_or("\"none\"".to_string(), |p| format!("\"{}\"", p.to_notation())),
+            opt(o.score),
+            o.nodes,
+            o.panicked,
+            o.events.len()
+        )
+        .unwrap();
+        for e in &o.events {
+            writeln!(w, "{e}").unwrap();
+        }
+        writeln!(w, "{{\"ev\":\"end\",\"id\":{id}}}").unwrap();
+    }
+    w.flush().unwrap();
+    println!("{{\"cases\":{}}}", cases.len());
+}
+
+// ------------------------------------------------------------------------------------------
+// un-pruned look-ahead tree (Board API only)
+
+struct Dump {
+    nodes: Vec<String>,
+    cap: usize,
+    overflow: bool,
+}
+
+/// Returns the 1-based id of the dumped node, or 0 when the cap was exceeded.
+fn dump_node(board: &mut Board, depth_left: u32, d: &mut Dump) -> usize {
+    if d.nodes.len() >= d.cap {
+        d.overflow = true;
+        return 0;
+    }
+    let id = d.nodes.len() + 1;
+    d.nodes.push(String::new());
+    let fifty = board.get_halfmove_clock() >= 100;
+    let rep = board.position_reached(board.zkey);
+    let chk = board.is_in_check(board.current_turn);
+    let eval = i32::from(SimpleEvaluator.evaluate(board));
+    let mut kids: Vec<String> = Vec::new();
+    let mut full = false;
+    if !(fifty || rep) {
+        let dd = depth_left + u32::from(chk);
+        let moves = board.get_legal_moves();
+        full = dd > 0;
+        for m in moves {
+            let is_cap = m.captured_piece.is_some();
+            if dd == 0 && !is_cap {
+                kids.push(format!("[0,0,\"{}\"]", m.to_notation()));
+                continue;
+            }
+            board.make_move(m);
+            let k = dump_node(board, if dd == 0 { 0 } else { dd - 1 }, d);
+            board.unmake_move();
+            kids.push(format!("[{k},{},\"{}\"]", u8::from(is_cap), m.to_notation()));
+            if d.overflow {
+                break;
+            }
+        }
+    }
+    d.nodes[id - 1] = format!(
+        "{{\"fifty\":{fifty},\"rep\":{rep},\"chk\":{chk},\"eval\":{eval},\"full\":{full},\"kids\":[{}]}}",
+        kids.join(",")
+    );
+    id
+}
+
+/// The root is not subject to the draw tests or the check extension (alpha_beta_start): its
+/// children are searched with depth-1. The dump records the root as a full node with `root: true`.
+pub fn dump_tree(board: &mut Board, depth: u32, cap: usize) -> Option<Vec<String>> {
+    let mut d = Dump { nodes: Vec::new(), cap, overflow: false };
+    d.nodes.push(String::new());
+    let moves = board.get_legal_moves();
+    let mut kids = Vec::new();
+    for m in moves {
+        let is_cap = m.captured_piece.is_some();
+        board.make_move(m);
+        let k = dump_node(board, depth - 1, &mut d);
+        board.unmake_move();
+        kids.push(format!("[{k},{},\"{}\"]", u8::from(is_cap), m.to_notation()));
+        if d.overflow {
+            return None;
+        }
+    }
+    let chk = board.is_in_check(board.current_turn);
+    let eval = i32::from(SimpleEvaluator.evaluate(board));
+    d.nodes[0] = format!(
+        "{{\"fifty\":false,\"rep\":false,\"chk\":{chk},\"eval\":{eval},\"full\":true,\"kids\":[{}]}}",
+        kids.join(",")
+    );
+    Some(d.nodes)
+}
+
+pub fn cmd_tree_dump(args: &Args) {
+    let cases = read_cases(&args.str("cases", "work/search/cases.ndjson"));
+    let outdir = args.str("outdir", "work/search/trees");
+    let cap = args.usize("cap", 200_000);
+    std::fs::create_dir_all(&outdir).unwrap();
+    crate::board::zkey::ZTable::init();
+    std::panic::set_hook(Box::new(|_| {}));
+    let mut done = 0usize;
+    let mut skipped = 0usize;
+    for (i, c) in cases.iter().enumerate() {
+        let fen = c["fen"].as_str().unwrap();
+        let hist = hist_of(c);
+        let depth = c["depth"].as_u64().unwrap_or(1) as u32;
+        let id = c["id"].as_u64().unwrap_or(i as u64);
+        let Some(mut board) = build_board(fen, &hist) else {
+            skipped += 1;
+            continue;
+        };
+        // the engine's own answer for this case, with caching neutralised
+        let o = run_search(&board, depth as u8, None, None, None, "off", false);
+        let Some(nodes) = dump_tree(&mut board, depth, cap) else {
+            skipped += 1;
+            continue;
+        };
+        let hist_json: Vec<String> = hist.iter().map(|m| format!("\"{m}\"")).collect();
+        let path = format!("{outdir}/tree-{id}.json");
+        let mut w = std::io::BufWriter::new(std::fs::File::create(&path).unwrap());
+        write!(
+            w,
+            "{{\"id\":{id},\"fen\":\"{fen}\",\"hist\":[{}],\"depth\":{depth},\"best\":{},\"score\":{},\"panicked\":{},\"n\":{},\"nodes\":[{}]}}",
+            hist_json.join(","),
+            o.best.map_or("\"none\"".to_string(), |p| format!("\"{}\"", p.to_notation())),
+            opt(o.score),
+            o.panicked,
+            nodes.len(),
+            nodes.join(",")
+        )
+        .unwrap();
+        w.flush().unwrap();
+        done += 1;
+    }
+    println!("{{\"dumped\":{done},\"skipped\":{skipped}}}");
+}
+
+// ------------------------------------------------------------------------------------------
+// mate-level facts (Board API only) and the searches of C12
+
+fn is_mate(board: &mut Board) -> bool {
+    board.get_legal_moves().is_empty() && board.is_in_check(board.current_turn)
+}
+
+/// For each root move: mates at once / stalemates / for each reply: (reply mates us, we have a mating answer).
+fn facts(board: &mut Board) -> String {
+    let mut out = Vec::new();
+    for m in board.get_legal_moves() {
+        board.make_move(m);
+        let replies = board.get_legal_moves();
+        let chk = board.is_in_check(board.current_turn);
+        let mates = replies.is_empty() && chk;
+        let stale = replies.is_empty() && !chk;
+        let mut rs = Vec::new();
+        for r in replies {
+            board.make_move(r);
+            let reply_mates = is_mate(board);
+            let mut answer = false;
+            if !reply_mates {
+                for a in board.get_legal_moves() {
+                    board.make_move(a);
+                    if is_mate(board) {
+                        answer = true;
+                    }
+                    board.unmake_move();
+                    if answer {
+                        break;
+                    }
+                }
+            }
+            board.unmake_move();
+            rs.push(format!("[{},{}]", u8::from(reply_mates), u8::from(answer)));
+        }
+        board.unmake_move();
+        out.push(format!(
+            "{{\"mv\":\"{}\",\"mates\":{mates},\"stale\":{stale},\"replies\":[{}]}}",
+            m.to_notation(),
+            rs.join(",")
+        ));
+    }
+    format!("[{}]", out.join(","))
+}
+
+pub fn cmd_mate_facts(args: &Args) {
+    // cases: {"id", "fen", "pre": [depths searched before, cache kept], "depth": d}
+    let cases = read_cases(&args.str("cases", "work/search/cases.ndjson"));
+    let out = args.str("out", "work/search/mates.ndjson");
+    crate::board::zkey::ZTable::init();
+    std::panic::set_hook(Box::new(|_| {}));
+    let mut w = std::io::BufWriter::new(std::fs::File::create(&out).unwrap());
+    let mut last_fen = String::new();
+    let mut last_facts = String::new();
+    for (i, c) in cases.iter().enumerate() {
+        let fen = c["fen"].as_str().unwrap();
+        let id = c["id"].as_u64().unwrap_or(i as u64);
+        let depth = c["depth"].as_u64().unwrap_or(3) as u8;
+        let pre: Vec<u8> = c["pre"]
+            .as_array()
+            .map(|a| a.iter().map(|x| x.as_u64().unwrap() as u8).collect())
+            .unwrap_or_default();
+        let mut board = Board::from_fen(fen);
+        if fen != last_fen {
+            last_facts = facts(&mut board);
+            last_fen = fen.to_string();
+        }
+        clear_tt();
+        let mut panicked = false;
+        for d in &pre {
+            let o = run_search(&board, *d, None, None, None, "keep", false);
+            panicked |= o.panicked;
+        }
+        let o = run_search(&board, depth, None, None, None, "keep", false);
+        panicked |= o.panicked;
+        let pre_s: Vec<String> = pre.iter().map(|d| d.to_string()).collect();
+        writeln!(
+            w,
+            "{{\"ev\":\"mate\",\"id\":{id},\"fen\":\"{fen}\",\"chars\":{},\"depth\":{depth},\"pre\":[{}],\"best\":{},\"score\":{},\"panicked\":{panicked},\"facts\":{}}}",
+            chars_json(fen),
+            pre_s.join(","),
+            o.best.map_or("\"none\"".to_string(), |p| format!("\"{}\"", p.to_notation())),
+            opt(o.score),
+            last_facts
+        )
+        .unwrap();
+    }
+    w.flush().unwrap();
+    println!("{{\"cases\":{}}}", cases.len());
+}
+
+// ------------------------------------------------------------------------------------------
+
+pub fn cmd_determinism(args: &Args) {
+    // cases: {"fen", "hist", "depth"}; each searched `reps` times from an empty cache
+    let cases = read_cases(&args.str("cases", "work/search/cases.ndjson"));
+    let out = args.str("out", "work/search/det.ndjson");
+    let reps = args.usize("reps", 3);
+    let tag = args.str("tag", "p0");
+    crate::board::zkey::ZTable::init();
+    std::panic::set_hook(Box::new(|_| {}));
+    let mut w = std::io::BufWriter::new(std::fs::File::create(&out).unwrap());
+    for (i, c) in cases.iter().enumerate() {
+        let fen = c["fen"].as_str().unwrap();
+        let hist = hist_of(c);
+        let depth = c["depth"].as_u64().unwrap_or(1) as u8;
+        let id = c["id"].as_u64().unwrap_or(i as u64);
+        let Some(board) = build_board(fen, &hist) else {
+            continue;
+        };
+        for r in 0..reps {
+            let o = run_search(&board, depth, None, None, None, "fresh", false);
+            writeln!(
+                w,
+                "{{\"ev\":\"result\",\"case\":{id},\"depth\":{depth},\"run\":\"{tag}-{r}\",\"best\":{},\"score\":{},\"nodes\":{},\"panicked\":{}}}",
+                o.best.map_or("\"none\"".to_string(), |p| format!("\"{}\"", p.to_notation())),
+                opt(o.score),
+                o.nodes,
+                o.panicked
+            )
+            .unwrap();
+        }
+    }
+    w.flush().unwrap();
+    println!("{{\"cases\":{}}}", cases.len());
+}
+
+/// Candidate positions for C12: random playouts, keeping positions where the 3-ply analysis
+/// finds a mate in <= 2 or an avoidable mate-in-1 threat; written out as FEN (no history,
+/// small half-move clock) by the harness's own FEN writer.
+pub fn cmd_mate_cands(args: &Args) {
+    use crate::h_rng::Rng;
+    crate::board::zkey::ZTable::init();
+    let seed = args.u64("seed", 1);
+    let want = args.usize("n", 100);
+    let seeds_dir = args.str("seeds", "seeds");
+    let fens = crate::h_chess::read_fens(&seeds_dir, &["bench.fen", "perft.fen", "mates.fen"]);
+    let mut rng = Rng::new(seed);
+    let mut found = 0usize;
+    let mut seen = std::collections::HashSet::new();
+    let mut tries = 0usize;
+    while found < want && tries < want * 400 {
+        tries += 1;
+        let mut board = if rng.chance(1, 3) {
+            BoardBuilder::construct_starting_board().build()
+        } else {
+            let f = rng.pick(&fens).clone();
+            let f6 = if f.split_whitespace().count() == 4 { format!("{f} 0 1") } else { f };
+            Board::from_fen(&f6)
+        };
+        let plies = 4 + rng.below(90);
+        let mut per_game = 0;
+        for _ in 0..plies {
+            let lm = board.get_legal_moves();
+            if lm.is_empty() {
+                break;
+            }
+            // prefer captures a little so that the material thins out
+            let caps: Vec<&Ply> = lm.iter().filter(|p| p.captured_piece.is_some()).collect();
+            let m = if !caps.is_empty() && rng.chance(1, 3) { **rng.pick(&caps) } else { *rng.pick(&lm) };
+            board.make_move(m);
+            if rng.chance(1, 3) {
+                continue;
+            }
+            let lm2 = board.get_legal_moves();
+            if lm2.len() < 2 {
+                continue;
+            }
+            // quick applicability test (the authoritative evaluation of the clauses is TLC's)
+            let f = facts(&mut board);
+            let applicable = f.contains("\"mates\":true") || f.contains("[1,") ;
+            let mate2 = f.contains("\"replies\":[[0,1]") ;
+            if !(applicable || mate2) {
+                continue;
+            }
+            let a = project_light(&board);
+            let fen = fen_of(&a.b, a.t, &a.c, a.ep, (rng.below(11)) as u16, a.f.max(1), true);
+            if seen.insert(fen.clone()) {
+                println!("{fen}");
+                found += 1;
+                per_game += 1;
+                if found >= want || per_game >= 2 {
+                    break;
+                }
+            }
+        }
+    }
+}
